@@ -11,6 +11,88 @@ def ed_enc(y, sign):
     return (y | (sign << 255)).to_bytes(32, "little")
 
 
+
+# ---------------------------------------------------------------------------------------
+# several groups of the same encoded width used alternately in one process, every string presented more
+# than once: behaviour must not depend on what was decoded before, in this group or in another one
+# (memo tables keyed without the group, or filled before validation, show up only here)
+# ---------------------------------------------------------------------------------------
+def mix_toy_int(w, prop, tier):
+    gs = [ps for ps in w.gs.values() if ps.toy and ps.kind == "int" and ps.esize == 1]
+    if len(gs) < 2:
+        return []
+    order = gs[::-1] + gs + gs[:2]
+    sc = w.scenario("%s/mixed-groups" % prop, ("cross-group", "repeat-presentation", "set:toyint"))
+    fails = []
+    sc.meta["fails"] = fails
+    zeros = {}
+    for ps in gs:
+        z = w.eid()
+        zeros[ps.gid] = payload(sc.do("e.zero %d %d" % (z, ps.gid)))
+    for v in list(range(0, 64)) + ([] if tier != "thorough" else list(range(64, 256))):
+        b = bytes([v])
+        for ps in order:
+            p_, q_, g_ = ps.pqg
+            e = w.eid()
+            o = sc.do("e.dec %d %d %s" % (e, ps.gid, hx(b)))
+            member = 0 < v < p_ and pow(v, q_, p_) == 1
+            if o.startswith("ok") != member and len(fails) < 3:
+                fails.append("group (p,q,g)=%s: bytes_to_element(%s) %s although the value is %sa member of the order-q subgroup (after other groups / earlier calls handled the same string)" % (
+                    ps.pqg, hx(b), "accepted" if o.startswith("ok") else "refused", "" if member else "not "))
+            if not o.startswith("ok"):
+                continue
+            if payload(o) != b and len(fails) < 3:
+                fails.append("group %s: %s decodes to an element encoding as %s" % (ps.pqg, hx(b), hx(payload(o))))
+            # q-fold sum by repeated addition (scalarmult reduces mod q and would hide a non-member)
+            acc = e
+            ok = True
+            for _ in range(q_ - 1):
+                n = w.eid()
+                oo = sc.do("e.add %d %d %d" % (n, acc, e))
+                if not oo.startswith("ok"):
+                    ok = False
+                    break
+                acc = n
+            if ok and payload(sc.w.im.run("e.enc %d" % acc)) != zeros[ps.gid] and len(fails) < 3:
+                fails.append("group %s: the q-fold sum of the element decoded from %s is not Zero" % (ps.pqg, hx(b)))
+            e2 = w.eid()
+            o2 = sc.do("e.dec %d %d %s" % (e2, ps.gid, hx(b)))
+            if o2.startswith("ok") and sc.do("e.eq %d %d" % (e, e2)) != "ok true" and len(fails) < 3:
+                fails.append("group %s: two decodings of %s are not equal elements" % (ps.pqg, hx(b)))
+            base = w.eid()
+            sc.do("e.base %d %d" % (base, ps.gid))
+            s1 = w.eid()
+            o3 = sc.do("e.add %d %d %d" % (s1, e, base))
+            if not o3.startswith("ok") and len(fails) < 3:
+                fails.append("group %s: decoded element + Base raised: %s" % (ps.pqg, o3))
+    sc.pred = lambda io, sc: (sc.meta["fails"][0] if sc.meta["fails"] else None)
+    return [sc]
+
+
+def again(w, prop, sources, cap):
+    """second (and third) presentation of strings already decoded once in `sources`: the outcome must be the same"""
+    sc = w.scenario("%s/second-presentation" % prop, ("repeat-presentation",))
+    fails = []
+    sc.meta["fails"] = fails
+    seen = []
+    for src in sources:
+        for ln, o in zip(src.lines, src.impl_out):
+            ws = ln[0].split() if isinstance(ln, tuple) else ln.split()
+            if ws and ws[0] == "e.dec":
+                seen.append((int(ws[2]), ws[3] if len(ws) > 3 else "-", o.startswith("ok")))
+    if len(seen) > cap:
+        step = len(seen) / float(cap)
+        seen = [seen[int(i * step)] for i in range(cap)]
+    for rnd in (2, 3):
+        for gid, hexs, was_ok in seen:
+            e = w.eid()
+            o = sc.do("e.dec %d %d %s" % (e, gid, hexs))
+            if o.startswith("ok") != was_ok and len(fails) < 3:
+                fails.append("presentation %d of %s to bytes_to_element was %s, the first one was %s" % (
+                    rnd, hexs[:80], "accepted" if o.startswith("ok") else "refused", "accepted" if was_ok else "refused"))
+    sc.pred = lambda io, sc: (sc.meta["fails"][0] if sc.meta["fails"] else None)
+    return [sc]
+
 # ---------------------------------------------------------------------------------------
 # C05 strict decoding
 # ---------------------------------------------------------------------------------------
@@ -316,6 +398,54 @@ def gen_C12(w, tier):
             return None
         sc.pred = pred_toy
         out.append(sc)
+    # addition through the element API with operands that are the same point reached along different routes
+    # (different projective representatives): i*Base by the ladder, by repeated addition, and re-decoded
+    def api_add(ps, name, mults, tags):
+        sc = w.scenario("C12/api-add/%s" % name, tags)
+        fails = []
+        sc.meta["fails"] = fails
+        b_ = w.eid()
+        sc.do("e.base %d %d" % (b_, ps.gid))
+        z_ = w.eid()
+        sc.do("e.zero %d %d" % (z_, ps.gid))
+        reps = {}
+        chain = {0: z_, 1: b_}
+        top = max([m for m in mults if m < 40] + [1])
+        for k in range(2, top + 1):
+            n = w.eid()
+            sc.do("e.add %d %d %d" % (n, chain[k - 1], b_))
+            chain[k] = n
+        for m in mults:
+            lad = w.eid()
+            o = sc.do("e.smul %d %d %d" % (lad, b_, m))
+            rs = [lad]
+            if m in chain:
+                rs.append(chain[m])
+            if o.startswith("ok") and m % ps.q != 0:
+                d = w.eid()
+                if sc.do("e.dec %d %d %s" % (d, ps.gid, hx(payload(o)))).startswith("ok"):
+                    rs.append(d)
+            reps[m] = rs
+        for i_ in mults:
+            for j_ in mults:
+                want = w.eid()
+                ow = sc.do("e.smul %d %d %d" % (want, b_, (i_ + j_) % ps.q))
+                for ra in reps[i_]:
+                    for rb in reps[j_]:
+                        t = w.eid()
+                        o = sc.do("e.add %d %d %d" % (t, ra, rb))
+                        if (not o.startswith("ok") or payload(o) != payload(ow)) and len(fails) < 3:
+                            fails.append("(%d*Base) + (%d*Base) through the element API is not %d*Base for some representatives of the operands: %s" % (i_, j_, (i_ + j_) % ps.q, o[:80]))
+        sc.pred = lambda io, sc: (sc.meta["fails"][0] if sc.meta["fails"] else None)
+        out.append(sc)
+    for name, ps in w.gs.items():
+        if ps.kind != "ed":
+            continue
+        if ps.toy:
+            api_add(ps, name, list(range(0, min(ps.q, 14 if not big else 60))) + [ps.q - 1, ps.q - 2], ("api-add", "toy-exhaustive"))
+    if "edgen" in w.ps:
+        pe = w.ps["edgen"]
+        api_add(pe, "ed", [0, 1, 2, 3, 4, 6, 8, Lq - 1, Lq - 2, Lq - 4, r.randrange(Lq), (Lq + 1) // 2], ("api-add",))
     # field helpers
     sc = w.scenario("C12/field", ("field",))
     sc.do("ed.consts %d" % gid)
@@ -867,3 +997,19 @@ def gen_C18(w, tier):
     sc3.pred = pred3
     out.append(sc3)
     return out
+
+
+# ---------------------------------------------------------------------------------------
+# the property's own scenarios, then repeat presentations and alternating same-width groups
+# ---------------------------------------------------------------------------------------
+def gen_C05_all(w, tier):
+    out = gen_C05(w, tier)
+    return out + again(w, "C05", [s for s in out if "finish" not in s.name], 1500 if tier != "thorough" else 6000) + mix_toy_int(w, "C05", tier)
+
+
+def gen_C13_all(w, tier):
+    return gen_C13(w, tier) + mix_toy_int(w, "C13", tier)
+
+
+def gen_C15_all(w, tier):
+    return gen_C15(w, tier) + mix_toy_int(w, "C15", tier)
